@@ -30,8 +30,8 @@
    Only statements, closed by [exact], with [Print Assumptions] beneath each. *)
 From Coq Require Import List NArith ZArith Bool Permutation.
 From Verif Require Import Base.Outcome Gen.Consts Wire.Item Generic.Types Generic.Enc Generic.Dec.
-From Verif Require Import C01.ComposeFloat C01.ComposeSimple C01.ComposeMsgpack.
-From Verif Require Wire.Simple Wire.Msgpack.
+From Verif Require Import C01.ComposeFloat C01.ComposeSimple C01.ComposeMsgpack C01.ComposeCbor.
+From Verif Require Wire.Simple Wire.Msgpack Wire.Cbor C10.CborConv.
 Import ListNotations.
 
 (* ---------------- simple ---------------- *)
@@ -102,6 +102,39 @@ Theorem C01_msgpack_roundtrip :
 Proof. exact msgpack_compose. Qed.
 Print Assumptions C01_msgpack_roundtrip.
 
+(* ---------------- cbor ---------------- *)
+
+Theorem C01_cbor_wire_ok : forall (Oc : Cbor.eopts) (D : Cbor.dopts),
+  wire_ok (W_cbor Oc D) /\ same_losses (losses_of (W_cbor Oc D)) cbor_losses.
+Proof. exact (fun Oc D => conj (W_cbor_ok Oc D) (W_cbor_losses Oc D)). Qed.
+Print Assumptions C01_cbor_wire_ok.
+
+(* cbor, PARTIAL: every option vector (IndefiniteLength, TimeRFC3339, StringToRaw, OptimumSize; decode side
+   SignedInteger, RawToString, SkipUnexpectedTags), every value WITHOUT A NON-ZERO time.Time.
+   Missing: non-zero times.  Wire/Cbor's byte-level lemma (Wcbor_dec_enc_partial) does not cover tags 0 / 1
+   ([lib_supports] excludes tags 0..5): what it lacks is the float / calendar arithmetic
+   time_of_float (f64_add ..) and parse_rfc3339 (fmt_rfc3339 ..) returning the microsecond-rounded instant.
+   [leaves_ok] therefore admits only the zero time (written as nil, read back as the zero time).  The
+   interface [wire_ok] and the losses ARE proved for all times at the item level only vacuously.
+   Premises: the wire lemma's own (Item.wf: ranges; plain: lengths are 64-bit; lib_supports of the
+   encoder's tree: lengths fit an int, map keys hashable and pairwise different, unsigned < 2^63 under
+   SignedInteger; tdepth < MaxDepth as the cbor decoder counts it) plus leaves_ok (no float32 signalling
+   NaN, no non-zero time) and the generic layer's depth < MaxDepth. *)
+Theorem C01_cbor_roundtrip_bytes_partial :
+  forall (Oc : Cbor.eopts) (D : Cbor.dopts) (O : gopts) (pi : order) (t : ty) (v : gv) (rest : list N),
+  order_ok pi -> wt t v = true -> supported t = true ->
+  wf (to_item O pi v) -> CborConv.plain (to_item O pi v) ->
+  CborConv.lib_supports D (CborConv.tree_of Oc (to_item O pi v)) ->
+  (CborConv.tdepth D (CborConv.tree_of Oc (to_item O pi v)) < Cbor.maxdepth D)%Z ->
+  leaves_ok (W_cbor Oc D) (to_item O pi v) = true ->
+  (Z.of_nat (depth (to_item O pi v)) < maxdepth O)%Z ->
+  Cbor.dec_naked D (Cbor.fuel_for (Cbor.enc Oc (to_item O pi v) ++ rest)) (Cbor.enc Oc (to_item O pi v) ++ rest)
+    = Ok (wn (W_cbor Oc D) (to_item O pi v), rest) /\
+  of_item (W_cbor Oc D) O 0 t (wn (W_cbor Oc D) (to_item O pi v)) = Ok (normL cbor_losses O (arrange O pi v)) /\
+  veq (normL cbor_losses O (arrange O pi v)) (normL cbor_losses O v).
+Proof. exact cbor_compose_partial. Qed.
+Print Assumptions C01_cbor_roundtrip_bytes_partial.
+
 (* ---------------- non-vacuity ---------------- *)
 Definition cx_ty : ty :=
   TStruct [([110; 97]%N, TMap TString (TSlice (TPtr (TInt W16))));
@@ -171,4 +204,39 @@ Example C01_msgpack_nonvacuous :
     = Ok (GList (Some [GTime 5%Z 6%N; GTime (-5)%Z 0%N])).
 Proof.
   cbv zeta. repeat apply conj; try (vm_compute; reflexivity); try (vm_compute; discriminate).
+Qed.
+
+(* cbor: the same value with zero times only *)
+Definition cx_val0 : gv :=
+  GStruct [([110; 97]%N, GMap (Some [(GStr [122]%N, GList (Some [GPtr (Some (GInt (-300)%Z)); GPtr None]));
+                                     (GStr [97]%N, GList None)]));
+           ([98]%N, GPtr (Some (GStruct [([120]%N, GF64 4609434218613702656%N); ([121]%N, GBytes (Some [1; 2; 3]%N));
+                                         ([122]%N, GBArr [7; 8]%N); ([119]%N, GF32 1069547520%N)])));
+           ([99]%N, GArr [GTime time_zero_sec 0%N; GTime time_zero_sec 0%N]);
+           ([97]%N, GList None);
+           ([100]%N, GMap (Some [(GInt 5%Z, GPtr (Some (GPtr None))); (GInt (-5)%Z, GPtr (Some (GPtr (Some (GStr [104; 105]%N)))))]));
+           ([117]%N, GUint 18446744073709551615%N)].
+
+Example C01_cbor_nonvacuous :
+  let Oc := Cbor.mkeo false false true true in             (* StringToRaw, OptimumSize *)
+  let Oi := Cbor.mkeo true false false true in             (* IndefiniteLength, OptimumSize *)
+  let D := Cbor.mkdo false false false 0 in
+  let i := to_item cx_O2 cx_pi cx_val0 in
+  wt cx_ty cx_val0 = true /\
+  wf i /\ CborConv.plain i /\ CborConv.lib_supports D (CborConv.tree_of Oc i) /\
+  (CborConv.tdepth D (CborConv.tree_of Oc i) < Cbor.maxdepth D)%Z /\
+  leaves_ok (W_cbor Oc D) i = true /\
+  (do ir <- Cbor.dec_naked D 1000 (Cbor.enc Oc i ++ [7]%N);;
+   of_item (W_cbor Oc D) cx_O2 0 cx_ty (fst ir)) = Ok (normL cbor_losses cx_O2 (arrange cx_O2 cx_pi cx_val0)) /\
+  (do ir <- Cbor.dec_naked D 1000 (Cbor.enc Oi i ++ [7]%N);;
+   of_item (W_cbor Oi D) cx_O2 0 cx_ty (fst ir)) = Ok (normL cbor_losses cx_O2 (arrange cx_O2 cx_pi cx_val0)) /\
+  (* a non-zero time is outside the leaf premise *)
+  leaves_ok (W_cbor Oc D) (to_item cx_O2 cx_pi cx_val) = false.
+Proof.
+  cbv zeta.
+  split; [vm_compute; reflexivity|].
+  split; [vm_compute; repeat apply conj; try exact I; try reflexivity; try (intro; discriminate); repeat constructor; reflexivity|].
+  split; [vm_compute; repeat apply conj; try exact I; try reflexivity; try (intro; discriminate)|].
+  split; [vm_compute; repeat apply conj; try exact I; try reflexivity; try (intro; discriminate); repeat constructor; try reflexivity|].
+  repeat apply conj; vm_compute; reflexivity.
 Qed.
